@@ -39,7 +39,7 @@ Section Juxt.
     (forall q, W q explicit) /\ desugar explicit = desugar (SJuxt a r).
   Proof.
     unfold juxt_ok in OK. apply andb_prop in OK. destruct OK as [O1 Hp]. apply andb_prop in O1. destruct O1 as [Hc Hm].
-    intros (Ca & Wa & St & Wr) explicit.
+    intros (Ca & Wa & St & Wr & _) explicit.
     assert (FT : followers_not_triggers T).
     { unfold compose_ok in Hc.
       apply andb_prop in Hc; destruct Hc as [O1 _]. apply andb_prop in O1; destruct O1 as [O1 _].
@@ -79,6 +79,7 @@ Section Juxt.
   (** what can take part in an implicit product: by the grammar, the left factor is a literal, a
       bracketed group or a call (or follows a factorial); the right factor starts with a trigger *)
   Theorem juxt_shape (a r : sx) p :
-    W p (SJuxt a r) -> capable a = true /\ pt_trigger T (hdk (print T r)) = true.
-  Proof. intros (Ca & _ & St & _). split; [exact Ca|exact St]. Qed.
+    W p (SJuxt a r) -> capable a = true /\ pt_trigger T (hdk (print T r)) = true /\
+                       numjuxt_ok T a (hdk (print T r)) = true.
+  Proof. intros (Ca & _ & St & _ & Hj). split; [exact Ca|split; [exact St|exact Hj]]. Qed.
 End Juxt.
